@@ -19,7 +19,7 @@ static void run(const vector<pair<int, int>> &shapePos, pair<int, int> jpos, con
     // known-finding class: three terminals in one row or one column (a terminal's pin then lies on the tree path between two others)
     vector<string> kc; for (size_t a = 0; a < shapePos.size(); a++) for (size_t b = a + 1; b < shapePos.size(); b++) for (size_t d = b + 1; d < shapePos.size(); d++) if ((shapePos[a].first == shapePos[b].first && shapePos[b].first == shapePos[d].first) || (shapePos[a].second == shapePos[b].second && shapePos[b].second == shapePos[d].second)) { if (kc.empty()) kc.push_back("three_terminals_collinear"); }
     // NOTE: nothing that outlives the case (ctx counters, class sets) may be allocated between heap_begin and heap_end
-    int nTrans = 0, nStates = 0, rConn = -1; size_t rJunc = 0; bool aborted = false; char abortWhat[600] = ""; char whyBuf[120] = "", obsBuf[200] = ""; bool pinOnPath = false;
+    int nTrans = 0, nStates = 0, rConn = -1; size_t rJunc = 0; bool aborted = false; char abortWhat[600] = ""; char whyBuf[120] = "", obsBuf[200] = ""; bool pinOnPath = false, throughTerminal = false;
     if (c.heap) mcx::heap_begin(c.heap, mcx::REUSE_NONE, 0);
     {
     string why, obs;
@@ -38,18 +38,35 @@ static void run(const vector<pair<int, int>> &shapePos, pair<int, int> jpos, con
         // consistency of the reported lists with the live objects
         if (c.reg) { HyperedgeNewAndDeletedObjectLists l = router->hyperedgeRerouter()->newAndDeletedObjectLists(0);
             set<ConnRef *> live(router->connRefs.begin(), router->connRefs.end()); set<Obstacle *> liveObs(router->m_obstacles.begin(), router->m_obstacles.end());
-            for (auto cn : l.newConnectorList) if (!live.count(cn)) why = "new connector not among live connectors";
+            HyperedgeNewAndDeletedObjectLists im = router->newAndDeletedObjectListsFromHyperedgeImprovement();   // improvement runs after rerouting in the same transaction and may delete again what rerouting created
+            set<ConnRef *> imDelC(im.deletedConnectorList.begin(), im.deletedConnectorList.end()); set<JunctionRef *> imDelJ(im.deletedJunctionList.begin(), im.deletedJunctionList.end());
+            for (auto cn : l.newConnectorList) if (!live.count(cn) && !imDelC.count(cn)) why = "new connector not among live connectors";
             for (auto cn : l.deletedConnectorList) { if (live.count(cn)) why = "deleted connector still live"; for (auto n : l.newConnectorList) if (n == cn) why = "connector in both new and deleted lists"; }
-            for (auto jn : l.newJunctionList) if (!liveObs.count(jn)) why = "new junction not among live obstacles";
+            for (auto jn : l.newJunctionList) if (!liveObs.count(jn) && !imDelJ.count(jn)) why = "new junction not among live obstacles";
             for (auto jn : l.deletedJunctionList) for (auto n : l.newJunctionList) if (n == jn) why = "junction in both new and deleted lists";
         }
-        if (c.second) { router->moveShape(shapes[0], 20, 0); router->processTransaction(); nTrans++; }
+        // class: the rerouted tree runs THROUGH a terminal (a junction, or a route point that is not one of its pins, lies inside a terminal shape)
+        if (c.reg) { auto inBox = [&](Point p, ShapeRef *sh) { Box b = sh->polygon().offsetBoundingBox(0); return p.x > b.min.x - 1e-9 && p.x < b.max.x + 1e-9 && p.y > b.min.y - 1e-9 && p.y < b.max.y + 1e-9; };
+            for (auto o : router->m_obstacles) { JunctionRef *jj = dynamic_cast<JunctionRef *>(o); if (jj) for (auto sh : shapes) if (inBox(jj->position(), sh)) throughTerminal = true; }
+            for (auto cn : router->connRefs) { const PolyLine &r = cn->displayRoute(); for (size_t q = 0; q < r.size(); q++) for (auto sh : shapes) if (inBox(r.ps[q], sh)) { bool isPin = false; for (auto pi : sh->m_connection_pins) { Point pp = pi->position(); if (fabs(pp.x - r.ps[q].x) < 1e-6 && fabs(pp.y - r.ps[q].y) < 1e-6) isPin = true; } if (!isPin) throughTerminal = true; } } }
+        if (c.second) {   // move the first terminal one cell, to the first free neighbouring cell (never onto another terminal)
+            static const int D[4][2] = {{1, 0}, {0, 1}, {-1, 0}, {0, -1}}; int dx = 0, dy = 0;
+            for (auto &d : D) { bool occ = false; for (auto &p : shapePos) if (p.first == shapePos[0].first + d[0] && p.second == shapePos[0].second + d[1]) occ = true; if (!occ) { dx = d[0] * 20; dy = d[1] * 20; break; } }
+            router->moveShape(shapes[0], dx, dy); router->processTransaction(); nTrans++; }
         nStates++;
         // ---- the hyperedge must be a tree over the same terminals
         map<void *, vector<void *>> adj; set<unsigned> leafShapes; int nconn = 0; set<void *> juncs;
-        set<JunctionRef *> deletedJ; if (c.reg && !c.second) { HyperedgeNewAndDeletedObjectLists l = router->hyperedgeRerouter()->newAndDeletedObjectLists(0); deletedJ.insert(l.deletedJunctionList.begin(), l.deletedJunctionList.end()); }
+        // objects the last transaction reported as deleted stay in the router's lists until it frees them "at its convenience": they are not part of the hyperedge
+        set<JunctionRef *> deletedJ; set<ConnRef *> deletedC;
+        if (c.reg && !c.second) { HyperedgeNewAndDeletedObjectLists l = router->hyperedgeRerouter()->newAndDeletedObjectLists(0); deletedJ.insert(l.deletedJunctionList.begin(), l.deletedJunctionList.end()); deletedC.insert(l.deletedConnectorList.begin(), l.deletedConnectorList.end()); }
+        { HyperedgeNewAndDeletedObjectLists l = router->newAndDeletedObjectListsFromHyperedgeImprovement(); deletedJ.insert(l.deletedJunctionList.begin(), l.deletedJunctionList.end()); deletedC.insert(l.deletedConnectorList.begin(), l.deletedConnectorList.end());
+            set<ConnRef *> live(router->connRefs.begin(), router->connRefs.end()); set<Obstacle *> liveObs(router->m_obstacles.begin(), router->m_obstacles.end());
+            for (auto cn : l.newConnectorList) if (!live.count(cn) && !deletedC.count(cn) && why.empty()) why = "new connector not among live connectors";
+            for (auto jn : l.newJunctionList) if (!liveObs.count(jn) && !deletedJ.count(jn) && why.empty()) why = "new junction not among live obstacles";
+            for (auto cn : l.changedConnectorList) if ((!live.count(cn) || deletedC.count(cn)) && why.empty()) why = "changed connector not live"; }
         for (auto o : router->m_obstacles) { JunctionRef *jj = dynamic_cast<JunctionRef *>(o); if (jj && !deletedJ.count(jj)) juncs.insert(jj); }
         for (auto cn : router->connRefs) {
+            if (deletedC.count(cn)) continue;
             nconn++; pair<ConnEnd, ConnEnd> e = cn->endpointConnEnds(); void *a = nullptr, *b = nullptr;
             if (e.first.junction()) a = e.first.junction(); else if (e.first.shape()) { a = e.first.shape(); leafShapes.insert(e.first.shape()->id()); } else if (why.empty()) why = "connector with an unattached end";
             if (e.second.junction()) b = e.second.junction(); else if (e.second.shape()) { b = e.second.shape(); leafShapes.insert(e.second.shape()->id()); } else if (why.empty()) why = "connector with an unattached end";
@@ -84,6 +101,7 @@ static void run(const vector<pair<int, int>> &shapePos, pair<int, int> jpos, con
     if (aborted) ctx.library_abort(abortWhat, desc);
     if (rConn >= 0) { ctx.cls("connectors_in_result", mcx::fmt("%d", rConn)); ctx.cls("junctions_in_result", mcx::fmt("%zu", rJunc)); }
     if (pinOnPath) kc.push_back("dropped_terminal_pin_on_tree_path");
+    if (throughTerminal) kc.push_back("rerouted_tree_runs_through_terminal");
     if (c.reg == 2) kc.push_back("registered_by_terminal_list");
     if (whyBuf[0]) ctx.violation(whyBuf, kc, desc, obsBuf);
 }
@@ -107,7 +125,7 @@ int main(int argc, char **argv) {
     run({{0, 0}, {2, 0}, {1, 2}}, {1, 1}, {2, 1, true, 0, 0});
     vector<Cfg> base; for (int opt = 0; opt < 3; opt++) for (int reg = 0; reg < 3; reg++) for (int sec = 0; sec < 2; sec++) for (int heap = 1; heap <= 2; heap++) base.push_back({opt, reg, (bool)sec, 0, heap});
     vector<Cfg> small; for (int reg = 0; reg < 3; reg++) for (int heap = 1; heap <= 2; heap++) small.push_back({2, reg, true, 0, heap});
-    phase(3, 2, base, "all options, 3x3 grid"); phase(3, 3, small, "improve all, second transaction");
-    if (T) { phase(3, 3, base, "all options"); vector<Cfg> ob; for (auto c : base) { c.obstacle = 1; if (c.opt != 1) ob.push_back(c); } phase(3, 2, ob, "with obstacle"); phase(4, 2, base, "all options, 3x3 grid"); phase(4, 3, small, "improve all, second transaction"); }
+    phase(3, 2, base, "all options, 3x3 grid"); phase(3, 3, small, "improve all, second transaction"); phase(4, 2, base, "all options, 3x3 grid");
+    if (T) { phase(3, 3, base, "all options"); vector<Cfg> ob; for (auto c : base) { c.obstacle = 1; if (c.opt != 1) ob.push_back(c); } phase(3, 2, ob, "with obstacle"); phase(4, 2, ob, "with obstacle"); phase(4, 3, base, "all options"); phase(5, 2, base, "all options, 3x3 grid"); }
     return ctx.finish();
 }
